@@ -31,6 +31,9 @@ import (
 type Send struct {
 	Client int  `json:"c"`
 	Req    bool `json:"r,omitempty"` // REQUEST / RENEW instead of DISCOVER / SOLICIT
+	// Bad: 1 truncated, 2 bad cookie / bad option, 3 a reply opcode / unsupported type: the server must drop it,
+	// and whatever it does with the receive buffer on that path must not disturb other datagrams
+	Bad int `json:"b,omitempty"`
 }
 
 // CCase is one concurrency scenario
@@ -68,7 +71,11 @@ func GenC(t *rapid.T) CCase {
 			if rapid.IntRange(0, 3).Draw(t, "storm") == 0 {
 				cl = c.Static // the first dynamic client, from many goroutines at once
 			}
-			s = append(s, Send{Client: cl, Req: rapid.Bool().Draw(t, "req")})
+			snd := Send{Client: cl, Req: rapid.Bool().Draw(t, "req")}
+			if rapid.IntRange(0, 7).Draw(t, "bad") == 0 {
+				snd.Bad = rapid.IntRange(1, 3).Draw(t, "bad-kind")
+			}
+			s = append(s, snd)
 		}
 		c.Scripts = append(c.Scripts, s)
 	}
@@ -234,14 +241,29 @@ func ExecC(c CCase) (res core.Result) {
 			mt = "03"
 		}
 		p.Opts = []gen.Opt4{{Code: 53, Hex: mt}, {Code: 55, Hex: "010306"}, {Code: 61, Hex: "01" + hex.EncodeToString(mac)}}
+		wire := p.Bytes()
+		switch s.Bad {
+		case 1:
+			wire = wire[:100+int(xid%130)]
+		case 2:
+			wire[236] ^= 0xff
+		case 3:
+			wire[0] = 2
+		}
 		enter()
-		sent, pan := feed4(cap4, p.Bytes(), &ipv4.ControlMessage{IfIndex: 1}, &net.UDPAddr{IP: net.IPv4(10, 10, 10, 254), Port: 67})
+		sent, pan := feed4(cap4, wire, &ipv4.ControlMessage{IfIndex: 1}, &net.UDPAddr{IP: net.IPv4(10, 10, 10, 254), Port: 67})
 		inflight.Add(-1)
 		if pan != nil {
 			report(core.Violate("C16/panic", "HandleMsg4 panicked under concurrent load: %v", pan))
 			return
 		}
 		o := concObs{client: s.Client}
+		if s.Bad != 0 {
+			if len(sent) != 0 {
+				report(core.Violate("C16/cross-talk", "a malformed datagram (kind %d) was answered under concurrent load", s.Bad))
+			}
+			return
+		}
 		if len(sent) > 1 {
 			report(core.Violate("C16/cross-talk", "one request produced %d replies", len(sent)))
 			return
@@ -273,14 +295,29 @@ func ExecC(c CCase) (res core.Result) {
 			opts = append(opts, gen.Opt6(gen.O6ServerID, gen.OwnDUID6))
 		}
 		opts = append(opts, gen.ORO6(23), gen.IANA6([4]byte{0, 0, 0, 1}, 0, 0), gen.IAPD6([4]byte{0, 0, 0, 2}, 0, 0))
+		wire := gen.Msg6(typ, xid, opts...)
+		switch s.Bad {
+		case 1:
+			wire = wire[:5+int(xid%3)] // ends inside the first option header
+		case 2:
+			wire = append(wire, 0, 25, 0, 200, 1) // an IA_PD option whose length runs past the end
+		case 3:
+			wire[0] = gen.M6Advertise
+		}
 		enter()
-		sent, pan := feed6(cap6, gen.Msg6(typ, xid, opts...), &ipv6.ControlMessage{IfIndex: 1}, &net.UDPAddr{IP: net.ParseIP("2001:db8::99"), Port: 546})
+		sent, pan := feed6(cap6, wire, &ipv6.ControlMessage{IfIndex: 1}, &net.UDPAddr{IP: net.ParseIP("2001:db8::99"), Port: 546})
 		inflight.Add(-1)
 		if pan != nil {
 			report(core.Violate("C16/panic", "HandleMsg6 panicked under concurrent load: %v", pan))
 			return
 		}
 		o := concObs{client: s.Client, v6: true}
+		if s.Bad != 0 {
+			if len(sent) != 0 {
+				report(core.Violate("C16/cross-talk", "a malformed DHCPv6 datagram (kind %d) was answered under concurrent load", s.Bad))
+			}
+			return
+		}
 		if len(sent) == 1 {
 			rep, err := dhcpv6.FromBytes(sent[0].Payload)
 			if err != nil {
@@ -371,7 +408,7 @@ func ExecC(c CCase) (res core.Result) {
 		return
 	}
 	// ---- serial-equivalence invariants
-	addrOf := map[string]int{}   // dynamic address -> client
+	addrOf := map[string]int{}     // dynamic address -> client
 	clientAddr := map[int]string{} // dynamic client -> address
 	prefOwner := map[string]int{}
 	held := map[int]map[string]bool{}
